@@ -13,8 +13,8 @@ from models import born
 R = {}
 
 
-def reg(name, gen, call, member=None, weight=1.0, heavy=False, solver=False, branch=None):
-    R[name] = dict(name=name, gen=gen, call=call, member=member, weight=weight, heavy=heavy, solver=solver, branch=branch or (lambda a: ''))
+def reg(name, gen, call, member=None, weight=1.0, heavy=False, solver=False, branch=None, fresh_result=True):
+    R[name] = dict(name=name, gen=gen, call=call, member=member, weight=weight, heavy=heavy, solver=solver, branch=branch or (lambda a: ''), fresh_result=fresh_result)
 
 
 def _tup(x):
@@ -182,6 +182,12 @@ reg('rand_n_ball',
 
 
 def _g_f2(r):
+    if r.random() < 0.5:  # small sizes with flags: the rejection loop actually runs (P(reject) = 1/4 .. 1/2)
+        nz, no = r.choice([(True, False), (False, True), (True, True)])
+        size = [r.choice([1, 2, 2, 3])] if r.random() < 0.8 else [1, 2]
+        if nz and no and int(np.prod(size)) <= 1:
+            size = [2]
+        return {'size': size, 'not_zero': nz, 'not_one': no}
     size = [r.randint(1, 4) for _ in range(r.randint(1, 3))]
     nz, no = r.random() < 0.4, r.random() < 0.4
     if nz and no and int(np.prod(size)) <= 1:
@@ -191,7 +197,7 @@ def _g_f2(r):
 
 reg('rand_F2', _g_f2,
     lambda nq, a, s: nq.random.rand_F2(*a['size'], not_zero=a['not_zero'], not_one=a['not_one'], seed=s),
-    lambda nq, a, v: mb.f2(a, v), branch=lambda a: f"nz={a['not_zero']},no={a['not_one']}")
+    lambda nq, a, v: mb.f2(a, v), weight=2, branch=lambda a: f"nz={a['not_zero']},no={a['not_one']}")
 
 reg('rand_SpF2',
     lambda r: {'n': r.randint(1, 3), 'return_kind': r.choice(['matrix', 'int_tuple', 'int_tuple-matrix'])},
@@ -283,7 +289,7 @@ def _g_clifford(r):
     return {'gates': gates}
 
 
-reg('CliffordCircuit.random_gate', _g_clifford, _c_clifford, None, weight=2)
+reg('CliffordCircuit.random_gate', _g_clifford, _c_clifford, None, weight=2, fresh_result=False)
 
 
 def _fixed_dm(d, seed):
